@@ -1,11 +1,14 @@
 #![allow(dead_code)]
+mod blind;
 mod checksum;
 mod corpus;
 mod dynafed;
 mod fmr;
 mod issuance;
 mod pools;
+mod psetblind;
 mod psetview;
+mod scalar;
 mod sha256c;
 mod sighash;
 mod tok;
@@ -21,6 +24,10 @@ fn main() {
         std::process::exit(2);
     }
     util::quiet_panics();
+    if !scalar::selftest() {
+        eprintln!("own scalar arithmetic self-test failed");
+        std::process::exit(2);
+    }
     if !sha256c::selftest() {
         eprintln!("own SHA-256 self-test failed");
         std::process::exit(2);
@@ -52,6 +59,9 @@ fn main() {
         ("sighash", "sensitivity") => sighash::sensitivity(rest, &mut out),
         ("sighash", "cache-replay") => sighash::cache_replay(rest, &mut out),
         ("sighash", "cache-record") => sighash::cache_record(rest, &mut out),
+        ("psetblind", "replay") => psetblind::replay(rest, &mut out),
+        ("blind", "replay") => blind::replay(rest, &mut out),
+        ("blind", "explicit") => blind::explicit(rest, &mut out),
         ("dynafed", "record") => dynafed::record(rest, &mut out),
         (m, c) => {
             eprintln!("unknown command {} {}", m, c);
